@@ -750,6 +750,21 @@ def has_side_effect(node: ast.AST, safe_callable_whitelist: Collection[str] = fr
         if isinstance(node.func, ast.Attribute) and isinstance(node.func.value, ast.Constant):
             safe_callable_whitelist = safe_callable_whitelist | {node.func.attr}
 
+        # A function that is handed to map or filter, or as a key to sort by, is called
+        called_arguments = [keyword.value for keyword in node.keywords if keyword.arg == "key"]
+        if isinstance(node.func, ast.Name) and node.func.id in {"map", "filter"}:
+            called_arguments.extend(node.args[:1])
+        if not all(
+            (isinstance(argument, ast.Name) and argument.id in safe_callable_whitelist)
+            or (isinstance(argument, ast.Constant) and argument.value is None)
+            or (
+                isinstance(argument, ast.Lambda)
+                and not has_side_effect(argument.body, safe_callable_whitelist)
+            )
+            for argument in called_arguments
+        ):
+            return True
+
         return (
             # What a call returns is not known to be safe to call, e.g. f()()
             any(isinstance(child, ast.Call) for child in ast.walk(node.func))
